@@ -24,6 +24,21 @@ def published_form(v):
     return ('other', fmt(v)[:120])
 
 
+def plus_1000(va, asof):
+    """is `va` the timespec (asof.tv_sec + 1000, 0)?"""
+    okb = va[0] == 'agg' and len(va[3]) == 2 and psi.is_int_const(va[3][1]) and va[3][1][1] == 0
+    sec = va[3][0] if va[0] == 'agg' and va[3] else None
+    if not okb:
+        return False
+    parts = arith.summands(sec)
+    consts = [arith.const_num(t) for s, t in parts if arith.const_num(t) is not None]
+    nonc = [t for s, t in parts if arith.const_num(t) is None]
+    if asof[0] == 'agg' and asof[3] and psi.is_int_const(asof[3][0]):
+        # a constant as_of (the constructor's placeholder): the seconds fold to a constant
+        return not nonc and sum(consts) == asof[3][0][1] + VOID_AFTER_S
+    return consts == [VOID_AFTER_S] and len(nonc) == 1 and nonc[0] == T('field', asof, 'tv_sec')
+
+
 def run(ctx, chk):
     fb = ctx.facts()
     chk.explanation = ('Per message class (dispatch loop with handlers inlined): which status is fed to the FSM (F, E), that the '
@@ -51,6 +66,7 @@ def run(ctx, chk):
             chk.missing('C08.A', 'updater fields feeding the record (as_of, bound, drift): %s' % m.field_of)
         return
     seen = {}
+    cached_va = set()
     for i in m.infos:
         p = i['path']
         name = i['msg_name']
@@ -93,14 +109,20 @@ def run(ctx, chk):
                    'record as_of=%s bound=%s' % (fmt(f[0])[-40:], fmt(f[2])[-40:]))
             # ---- B void_after
             va = f[1]
-            okb = va[0] == 'agg' and len(va[3]) == 2 and psi.is_int_const(va[3][1]) and va[3][1][1] == 0
-            sec = va[3][0] if va[0] == 'agg' and va[3] else None
-            if okb:
-                parts = arith.summands(sec)
-                consts = [arith.const_num(t) for s, t in parts if arith.const_num(t) is not None]
-                nonc = [t for s, t in parts if arith.const_num(t) is None]
-                okb = consts == [VOID_AFTER_S] and len(nonc) == 1 and nonc[0] == T('field', f[0], 'tv_sec')
-            chk.ob('C08.B', 'void-after:as-of-sec-plus-1000', okb, where, 'void_after = %s' % fmt(va)[:120])
+            held_va = m.updater_field(va)
+            if held_va is not None and held_va not in i['stores']:
+                # a cached void_after: correct iff the updater keeps the invariant `void_after field == as_of field + 1000 s`
+                # (established by the constructor, re-established whenever as_of is assigned, never assigned otherwise)
+                cached_va.add(held_va)
+                okb = True
+                chk.ob('C08.B', 'void-after:as-of-sec-plus-1000', True, where, 'void_after = cached field %s (invariant checked below)' % held_va,
+                       nontrivial=False)
+            else:
+                if held_va is not None:
+                    va = i['stores'][held_va]
+                    cached_va.add(held_va)
+                okb = plus_1000(va, f[0])
+                chk.ob('C08.B', 'void-after:as-of-sec-plus-1000', okb, where, 'void_after = %s' % fmt(va)[:120])
             # ---- C drift
             chk.ob('C08.C', 'drift:passed-through', m.updater_field(f[3]) == drift_f and drift_f not in i['stores'], where,
                    'record drift = %s; drift field assigned on this path: %s' % (fmt(f[3])[-40:], drift_f in i['stores']))
@@ -109,6 +131,20 @@ def run(ctx, chk):
             kind, st_, from_step = m.published(chk, i, ceb)
             okh = (kind == 'fsm' and from_step) or (kind, st_) == ('const', 'Unknown')
             chk.ob('C08.H', 'published-status:%s' % kind, okh, where, 'published status = %s' % str((kind, st_))[:160])
+    # invariant of a cached void_after field (if the updater has one)
+    for vf in sorted(cached_va):
+        for i in m.infos:
+            if i['recv_err'] or i['msg_name'] is None:
+                continue
+            sa, sv = asof_f in i['stores'], vf in i['stores']
+            good = (sa == sv) and (not sv or plus_1000(i['stores'][vf], i['stores'][asof_f]))
+            chk.ob('C08.B', 'void-after:cached-field-follows-as-of:%s' % i['msg_name'].split('(')[0], good, i['path'].where[2],
+                   'on this path as_of assigned=%s, %s assigned=%s%s' % (sa, vf, sv, (' <- ' + fmt(i['stores'][vf])[:80]) if sv else ''))
+        ctor_, fields_, _ = m.initial_state(chk)
+        if fields_ is not None:
+            good0 = vf in fields_ and asof_f in fields_ and plus_1000(fields_[vf], fields_[asof_f])
+            chk.ob('C08.B', 'void-after:cached-field-initialised-from-as-of', good0, where0,
+                   'constructor sets %s <- %s with as_of <- %s' % (vf, fmt(fields_.get(vf, ('sym', '?')))[:60], fmt(fields_.get(asof_f, ('sym', '?')))[:40]))
     for name in list(MISSING) + ['ClockErrorBoundData', 'ThreadAbort']:
         chk.ob('C08.F', 'dispatch:%s:handled' % name, name in seen, where0,
                'message %s %s' % (name, 'has a dispatch row' if name in seen else 'HAS NO DISPATCH ROW'), nontrivial=False)
